@@ -763,7 +763,7 @@ theorem dupKinds_sev {s : Schema} {c : TagCtx} {t : Sec} {k : IK} (h : k ∈ dup
   unfold dupKinds at h
   obtain ⟨key, _, hk⟩ := List.mem_map.mp h
   subst hk
-  show (if _ then IK.duplicateFromLibrary else IK.duplicateNode).sev = sevError
+  unfold dupCodeOf dupCode
   split <;> rfl
 
 theorem dedupKeys_eq_nil {l : List HKey} (h : dedupKeys l = []) : l = [] := by
@@ -791,6 +791,204 @@ theorem no_tag_dups (env : Env) (s : Schema) (hc : Compliant env s) :
     have := hall _ hm
     simp [hsev] at this
 
+/-! ### duplicate names in any section, at any placement -/
+
+@[simp] theorem append_sec_same (s : Schema) (t : Sec) (e : Entry) : (s.append t e).sec t = s.sec t ++ [e] := by
+  simp [Schema.append]
+
+theorem append_sec_ne (s : Schema) {t t' : Sec} (e : Entry) (h : t' ≠ t) : (s.append t e).sec t' = s.sec t' := by
+  simp [Schema.append, h]
+
+/-- a compliant schema has no duplicate names in any section -/
+theorem no_dups (env : Env) (s : Schema) (hc : Compliant env s) (t : Sec) : dupPairs s t = [] := by
+  unfold Compliant compliantB at hc
+  have hall := ((Bool.and_eq_true _ _).mp hc).1
+  rw [List.all_eq_true] at hall
+  cases hd : dupPairs s t with
+  | nil => rfl
+  | cons p rest =>
+    exfalso
+    have hk : ∃ k, k ∈ dupKinds s (tagCtx s) t := by
+      unfold dupKinds
+      simp only [hd]
+      simp [dedupKeys]
+    obtain ⟨k, hk⟩ := hk
+    have hsev := dupKinds_sev hk
+    have hm := mem_check_dup env s true t k hk (by rw [hsev]; exact Nat.le_refl _)
+    have := hall _ hm
+    simp [hsev] at this
+
+/-- the duplicate bookkeeping after one more entry whose key is already registered -/
+theorem dupPairs_append (s : Schema) (t : Sec) (e : Entry) (h : dupAdmissible s t e = true) :
+    dupPairs (s.append t e) t = dupPairs s t ++ [(probeOf t e, ((s.sec t).length, e))] := by
+  simp only [dupAdmissible, Bool.and_eq_true, Bool.not_eq_true', Bool.and_eq_false_iff,
+    decide_eq_false_iff_not] at h
+  obtain ⟨hreg, hext⟩ := h
+  have hd : dupG (regOf t) (probeOf t) ∅ 0 ((s.append t e).sec t)
+      = dupG (regOf t) (probeOf t) ∅ 0 (s.sec t) ++ [(probeOf t e, ((s.sec t).length, e))] := by
+    rw [append_sec_same, dupG_append]
+    simp [dupG, hreg]
+  unfold dupPairs
+  rw [hd]
+  cases t <;> simp_all [List.filter_append]
+
+/-- `check_duplicate_names` on a compliant schema plus one duplicate entry: exactly one issue, for that key -/
+theorem dupKinds_append (env : Env) (s : Schema) (hc : Compliant env s) (t : Sec) (e : Entry)
+    (h : dupAdmissible s t e = true) (c : TagCtx) :
+    dupKinds (s.append t e) c t = [dupCodeOf (s.append t e) c t (probeOf t e)] := by
+  unfold dupKinds
+  rw [dupPairs_append s t e h, no_dups env s hc t]
+  simp [dedupKeys]
+
+/-- the members of that duplicate list: the registered entry, then the new one -/
+theorem dupMembers_append (env : Env) (s : Schema) (hc : Compliant env s) (t : Sec) (e : Entry)
+    (h : dupAdmissible s t e = true) (c : TagCtx) :
+    dupMembers (s.append t e) c t (probeOf t e)
+      = (dupOwner (s.append t e) c t (probeOf t e)).toList ++ [((s.sec t).length, e)] := by
+  unfold dupMembers
+  rw [dupPairs_append s t e h, no_dups env s hc t]
+  simp
+
+/-- **`duplicate_code_spec`**: the code reported for a duplicated name is `SCHEMA_LIBRARY_INVALID`
+(`duplicateFromLibrary`) iff its copies are not all on the same side — some copy is a library entry and some
+copy is not — and `SCHEMA_DUPLICATE_NODE` otherwise; whatever the sections, keys, depths or attribute values -/
+theorem duplicate_code_spec (s : Schema) (c : TagCtx) (t : Sec) (k : HKey) :
+    (dupCodeOf s c t k = IK.duplicateFromLibrary ↔
+      (∃ a ∈ dupMembers s c t k, inLib c t a = true) ∧ (∃ b ∈ dupMembers s c t k, inLib c t b = false)) ∧
+    (dupCodeOf s c t k = IK.duplicateNode ↔
+      ¬ ((∃ a ∈ dupMembers s c t k, inLib c t a = true) ∧ (∃ b ∈ dupMembers s c t k, inLib c t b = false))) := by
+  have hiff : ((dupMembers s c t k).map (inLib c t)).any id = true ∧
+      ((dupMembers s c t k).map (inLib c t)).any (!·) = true ↔
+      (∃ a ∈ dupMembers s c t k, inLib c t a = true) ∧ (∃ b ∈ dupMembers s c t k, inLib c t b = false) := by
+    simp [List.any_eq_true]
+  unfold dupCodeOf dupCode
+  by_cases hb : (((dupMembers s c t k).map (inLib c t)).any id && ((dupMembers s c t k).map (inLib c t)).any (!·)) = true
+  · have h1 := hiff.mp ((Bool.and_eq_true _ _).mp hb)
+    rw [if_pos hb]
+    exact ⟨⟨fun _ => h1, fun _ => rfl⟩, ⟨(fun h => nomatch h), (fun h => absurd h1 h)⟩⟩
+  · have hn : ¬ ((∃ a ∈ dupMembers s c t k, inLib c t a = true) ∧ (∃ b ∈ dupMembers s c t k, inLib c t b = false)) :=
+      fun h => hb ((Bool.and_eq_true _ _).mpr (hiff.mpr h))
+    rw [if_neg hb]
+    exact ⟨⟨(fun h => nomatch h), (fun h => absurd h hn)⟩, ⟨fun _ => hn, fun _ => rfl⟩⟩
+
+/-- a duplicate of a registered name, placed anywhere (for a tag: under any node or at top level; for a unit:
+in any unit class; …), with any attributes, in any section, is reported, warnings on or off, with the code
+`dupCodeOf` — which `duplicate_code_spec` characterises -/
+theorem dup_reported (env : Env) (s : Schema) (hc : Compliant env s) (t : Sec) (e : Entry)
+    (h : dupAdmissible s t e = true) (w : Bool) :
+    (⟨dupCodeOf (s.append t e) (tagCtx (s.append t e)) t (probeOf t e),
+      (dupCodeOf (s.append t e) (tagCtx (s.append t e)) t (probeOf t e)).sev, [], [], []⟩ : Issue)
+      ∈ check env (s.append t e) w := by
+  have hk : dupCodeOf (s.append t e) (tagCtx (s.append t e)) t (probeOf t e)
+      ∈ dupKinds (s.append t e) (tagCtx (s.append t e)) t := by
+    rw [dupKinds_append env s hc t e h]; simp
+  exact mem_check_dup env _ w t _ hk (by rw [dupKinds_sev hk]; exact Nat.le_refl _)
+
+theorem dupCode_two (x y : Bool) :
+    dupCode [x, y] = if x = y then IK.duplicateNode else IK.duplicateFromLibrary := by
+  cases x <;> cases y <;> rfl
+
+/-- with two copies (the registered entry `o` and the new one) the code is `SCHEMA_DUPLICATE_NODE` iff both are
+library entries or both are not, `SCHEMA_LIBRARY_INVALID` iff exactly one is -/
+theorem dup_code_two (env : Env) (s : Schema) (hc : Compliant env s) (t : Sec) (e : Entry)
+    (h : dupAdmissible s t e = true) (c : TagCtx) (o : IE)
+    (ho : dupOwner (s.append t e) c t (probeOf t e) = some o) :
+    dupCodeOf (s.append t e) c t (probeOf t e) =
+      if inLib c t o = inLib c t ((s.sec t).length, e) then IK.duplicateNode else IK.duplicateFromLibrary := by
+  unfold dupCodeOf
+  rw [dupMembers_append env s hc t e h, ho]
+  show dupCode [inLib c t o, inLib c t ((s.sec t).length, e)] = _
+  exact dupCode_two _ _
+
+theorem splitOn_getLast (c : Char) (v x : Str) (h : c ∉ x) : (splitOn c (v ++ c :: x)).getLast? = some x := by
+  induction v with
+  | nil => simp [splitOn, splitOn_noSep h]
+  | cons y r ih =>
+    show (splitOn c (y :: (r ++ c :: x))).getLast? = some x
+    unfold splitOn
+    split
+    · cases hs : splitOn c (r ++ c :: x) with
+      | nil => exact absurd hs (splitOn_ne_nil _ _)
+      | cons a b => rw [hs] at ih; simpa [List.getLast?_cons_cons] using ih
+    · split
+      · rename_i heq; exact absurd heq (splitOn_ne_nil _ _)
+      · rename_i hd tl heq
+        rw [heq] at ih
+        cases tl with
+        | nil =>
+          -- a text with a separator splits in at least two items
+          exfalso
+          have : x ∈ (splitOn c (r ++ c :: x)).tail := splitOn_tail c r x h
+          rw [heq] at this; simp at this
+        | cons a b => simpa [List.getLast?_cons_cons] using ih
+
+theorem splitOn_item_noSep (c : Char) (s y : Str) (h : y ∈ splitOn c s) : c ∉ y := by
+  induction s generalizing y with
+  | nil => simp [splitOn] at h; subst h; simp
+  | cons z r ih =>
+    unfold splitOn at h
+    split at h
+    · rcases List.mem_cons.mp h with h1 | h1
+      · subst h1; simp
+      · exact ih y h1
+    · rename_i hz
+      split at h
+      · simp at h; subst h; simpa using fun e => hz e.symm
+      · rename_i hd tl heq
+        rcases List.mem_cons.mp h with h1 | h1
+        · subst h1
+          have := ih hd (by rw [heq]; simp)
+          intro hm
+          rcases List.mem_cons.mp hm with h2 | h2
+          · exact hz h2.symm
+          · exact this h2
+        · exact ih y (by rw [heq]; exact List.mem_cons_of_mem _ h1)
+
+theorem shortKey_noSlash (n : Str) : '/' ∉ shortKey n := by
+  unfold shortKey
+  cases hl : (splitOn '/' (fold n)).getLast? with
+  | none => simp
+  | some l => exact splitOn_item_noSep '/' (fold n) l (List.mem_of_getLast? hl)
+
+/-- the name key of a node called `x` is `x` (case-folded), wherever the node is placed -/
+theorem shortKey_childName (p : Option Str) (x : Str) (h : '/' ∉ fold x) : shortKey (childName p x) = fold x := by
+  unfold shortKey childName
+  cases p with
+  | none => simp [splitOn_noSep h]
+  | some q =>
+    have : fold (q ++ '/' :: x) = fold q ++ '/' :: fold x := by simp [fold]
+    rw [this, splitOn_getLast '/' (fold q) (fold x) h]
+    rfl
+
+/-- **every placement**: a new node that repeats the name of an existing (non-`#`) node `e0` of a compliant
+schema — as a sibling, a level up or down, in another subtree, below a `#`-bearing node, at top level: below
+*any* parent name `p` — with *any* attributes and description, is reported (warnings on or off) with the code
+`dupCodeOf`, i.e. (`duplicate_code_spec`, `dup_code_two`) `SCHEMA_DUPLICATE_NODE` when the two copies are on the
+same side and `SCHEMA_LIBRARY_INVALID` when exactly one of them is a library node -/
+theorem dup_tag_any_placement (env : Env) (s : Schema) (hc : Compliant env s) (e0 : Entry)
+    (h0 : e0 ∈ s.sec .tags) (hhash : shortKey e0.name ≠ hash) (x : Str) (hx : fold x = shortKey e0.name)
+    (p : Option Str) (attrs : List (Str × AttrVal)) (desc : Str) (w : Bool) :
+    let e : Entry := ⟨childName p x, attrs, desc, [], []⟩
+    dupAdmissible s .tags e = true ∧
+    (⟨dupCodeOf (s.append .tags e) (tagCtx (s.append .tags e)) .tags (probeOf .tags e),
+      (dupCodeOf (s.append .tags e) (tagCtx (s.append .tags e)) .tags (probeOf .tags e)).sev, [], [], []⟩ : Issue)
+      ∈ check env (s.append .tags e) w := by
+  intro e
+  have hns : '/' ∉ fold x := by rw [hx]; exact shortKey_noSlash _
+  have hkey : probeOf .tags e = probeOf .tags e0 := by
+    simp only [probeOf, e, shortKey_childName p x hns, hx]
+  have hreg := keysG_contains (regOf .tags) (probeOf .tags) (s.sec .tags) ∅ e0 h0
+    (by
+      simp only [probeOf, regOf]
+      exact List.mem_map.mpr ⟨_, shortKey_mem_forms e0.name hhash, rfl⟩)
+  have hadm : dupAdmissible s .tags e = true := by
+    simp [dupAdmissible, hkey, hreg]
+  exact ⟨hadm, dup_reported env s hc .tags e hadm w⟩
+
+theorem seed_dupNode_eq (s : Schema) (i : Nat) (e : Entry) (he : (s.sec .tags)[i]? = some e) :
+    seed (.dupNode i) s = s.append .tags e := by
+  simp [seed, Schema.append, he]
+
 theorem fault_dupNode_issue (env : Env) (s : Schema) (hc : Compliant env s) (i : Nat)
     (h : admissible env (.dupNode i) s = true) (w : Bool) :
     ∃ iss ∈ check env (seed (.dupNode i) s) w, iss.code = Spec.schemaCode .dupNode ∧ iss.sev = reportedSev .dupNode := by
@@ -802,28 +1000,22 @@ theorem fault_dupNode_issue (env : Env) (s : Schema) (hc : Compliant env s) (i :
     simp only [he, Bool.and_eq_true, decide_eq_true_eq] at h
     obtain ⟨hhash, hown⟩ := h
     have hmem : e ∈ s.sec .tags := List.mem_of_getElem? he
-    -- the seeded tag list
-    have hsec : (seed (.dupNode i) s).sec .tags = s.sec .tags ++ [e] := by simp [seed, he]
-    -- its duplicate bookkeeping: exactly the new node
-    have hd : dupG (regOf .tags) (probeOf .tags) ∅ 0 ((seed (.dupNode i) s).sec .tags)
-        = [(mkKey (shortKey e.name), ((s.sec .tags).length, e))] := by
-      rw [hsec, dupG_append, no_tag_dups env s hc]
-      have hc := keysG_contains (regOf .tags) (probeOf .tags) (s.sec .tags) ∅ e hmem
+    have hadm : dupAdmissible s .tags e = true := by
+      have hreg := keysG_contains (regOf .tags) (probeOf .tags) (s.sec .tags) ∅ e hmem
         (by
           simp only [probeOf, regOf]
           exact List.mem_map.mpr ⟨_, shortKey_mem_forms e.name hhash, rfl⟩)
-      simp only [probeOf] at hc
-      simp [dupG, probeOf, hc]
-    have hk : IK.duplicateNode ∈ dupKinds (seed (.dupNode i) s) (tagCtx (seed (.dupNode i) s)) .tags := by
-      unfold dupKinds dupPairs
-      simp only [hd]
-      cases ho : dupOwner (seed (.dupNode i) s) (tagCtx (seed (.dupNode i) s)) .tags (mkKey (shortKey e.name)) with
-      | none => simp [ho] at hown
-      | some o =>
-        simp only [ho, decide_eq_true_eq] at hown
-        simp only [dedupKeys, List.map_cons, List.map_nil, List.filter_nil, List.mem_singleton, ho]
-        simp [hown]
-    exact ⟨_, mem_check_dup env _ w .tags _ hk (by decide), rfl, rfl⟩
+      simp [dupAdmissible, hreg]
+    rw [seed_dupNode_eq s i e he] at hown ⊢
+    cases ho : dupOwner (s.append .tags e) (tagCtx (s.append .tags e)) .tags (mkKey (shortKey e.name)) with
+    | none => simp [ho] at hown
+    | some o =>
+      simp only [ho, decide_eq_true_eq] at hown
+      have hrep := dup_reported env s hc .tags e hadm w
+      have hcode := dup_code_two env s hc .tags e hadm (tagCtx (s.append .tags e)) o (by simpa [probeOf] using ho)
+      rw [hcode] at hrep
+      simp only [inLib, hown, if_true] at hrep
+      exact ⟨_, hrep, rfl, rfl⟩
 
 /-! ## The property theorems -/
 
@@ -1076,6 +1268,91 @@ theorem hedid_nested_library_counterexample :
     vHedIdOld nestedEnv nestedCtx .tags nestedTag Key.HedID = [] ∧
     idLib nestedCtx .tags nestedTag = ['s','c','o','r','e'] ∧
     vHedId nestedEnv nestedCtx .tags nestedTag Key.HedID = [IK.hedIdInvalid] := by decide
+
+/-! ## Exactness of the value rules: a checker flags the value iff it is the fault (no false alarm either) -/
+
+/-- `tag_is_deprecated_check`, value part: flagged iff the (non-empty) version is unknown for the library or not
+older than the schema's version of that library; a released, older version is accepted -/
+theorem deprecatedVerdict_iff (versions : List Str) (lv : Option Str) (v : Str) :
+    IK.deprecatedInvalid ∈ deprecatedVerdict versions lv v ↔ (v ≠ [] ∧ unknownOrNotOlder versions lv v = true) := by
+  constructor
+  · intro h
+    unfold deprecatedVerdict at h
+    unfold unknownOrNotOlder
+    by_cases hv : v = []
+    · simp [hv] at h
+    · refine ⟨hv, ?_⟩
+      simp only [hv, if_false] at h
+      by_cases hk : v ∈ versions
+      · simp only [hk, not_true, if_false] at h
+        cases lv with
+        | none => simp at h
+        | some l =>
+          by_cases hl : l = []
+          · simp [hl] at h
+          · simp only [hl, if_false] at h
+            cases hle : verLE l v with
+            | none => simp [hle] at h
+            | some b => cases b <;> simp [hle] at h; simp [hk, hl, hle]
+      · simp [hk]
+  · rintro ⟨hv, h⟩
+    exact deprecatedVerdict_of_bad hv h
+
+/-- `in_library_check`: silent iff the value is one of the schema's library names -/
+theorem inLibrary_exact (s : Schema) (e : Entry) (a l : Str) (h : getAttr a e.attrs = some (.text l)) :
+    vInLibrary s e a = [] ↔ l ∈ splitOn ',' s.header.library := by
+  unfold vInLibrary
+  simp only [h]
+  split <;> simp_all
+
+/-- `conversion_factor`: silent iff the text (with `^` read as `e`) is a float literal that is positive (or nan,
+which Python does not order) -/
+theorem conversionFactor_exact (e : Entry) (a v : Str) (h : getAttr a e.attrs = some (.text v)) :
+    vConversionFactor e a = [] ↔ ∃ f, pyFloat (caretToE v) = some f ∧ (f.positive = true ∨ f.nan = true) := by
+  unfold vConversionFactor
+  simp only [h]
+  cases hf : pyFloat (caretToE v) with
+  | none => simp
+  | some f =>
+    by_cases hp : (f.positive || f.nan) = true
+    · simp only [hp, if_true, true_iff]
+      exact ⟨f, rfl, by simpa using hp⟩
+    · simp only [hp]
+      simp only [Bool.or_eq_true, not_or] at hp
+      simp [hp.1, hp.2]
+
+/-- `verify_tag_id` on a well-formed id: silent iff the id is inside the library's range (when the library has
+one) and equal to the id of the previous release (when there is one) -/
+theorem hedId_exact (env : Env) (lib : Str) (t : Sec) (ie : IE) (a v : Str) (n : Int)
+    (h : getAttr a ie.2.attrs = some (.text v)) (hn : pyInt (removePrefix hedPrefix v) = some n) :
+    vHedIdLib env lib t ie a = [] ↔ (idChanged env lib t ie.2.name n = false ∧ idOutOfRange env lib n = false) := by
+  unfold vHedIdLib
+  simp only [h, hn]
+  cases idChanged env lib t ie.2.name n <;> cases idOutOfRange env lib n <;> simp
+
+/-- … and a malformed id is always flagged -/
+theorem hedId_malformed (env : Env) (lib : Str) (t : Sec) (ie : IE) (a v : Str)
+    (h : getAttr a ie.2.attrs = some (.text v)) (hn : pyInt (removePrefix hedPrefix v) = none) :
+    vHedIdLib env lib t ie a = [IK.hedIdInvalid] := by
+  unfold vHedIdLib
+  simp only [h, hn]
+
+/-- `item_exists_check` flags exactly the comma items that are not found (deprecation aside): an item that
+exists and is not deprecated contributes nothing -/
+theorem itemExists_silent_of_found (s : Schema) (c : TagCtx) (t : Sec) (ie : IE) (a v : Str) (target : Sec)
+    (h : getAttr a ie.2.attrs = some (.text v))
+    (hall : ∀ item ∈ splitOn ',' v, item = [] ∨
+      ∃ x, findIn s c target item = some (some x) ∧ hasOf c target x Key.DeprecatedFrom = false) :
+    vItemExists s c t ie a target = [] := by
+  unfold vItemExists
+  simp only [h]
+  apply flatMap_nil'
+  intro item hi
+  rcases hall item hi with h0 | ⟨x, hx, hd⟩
+  · simp [h0]
+  · by_cases h0 : item = []
+    · simp [h0]
+    · simp [h0, hx, hd]
 
 /-! ## Non-vacuity: the hypotheses are satisfiable (a two-entry schema; the driver evaluates `compliantB`
 and `admissible` on every bundled schema and every position the harness uses) -/
